@@ -187,7 +187,7 @@ pub fn run(c: &Value) -> Value {
         ("csv_tensor", "f64") => {
             let data: Vec<f64> = bits.iter().map(|b| f64::of_bits(*b)).collect();
             let t = Tensor::<NdArray<f64>, 3>::from_data(TensorData::new(data, [shape[0], shape[1], shape[2]]), &Default::default());
-            finish(save_csv_tensor(t, p), p, read_csv::<f32>, keep)
+            finish(save_csv_tensor(t, p), p, read_csv::<f64>, keep)
         }
         ("parquet_tensor", "f32") => {
             let data: Vec<f32> = bits.iter().map(|b| f32::of_bits(*b)).collect();
